@@ -70,6 +70,9 @@ def cases(draw, tier):
     cfg["B0"] = crossing_pair(list(names) + ["IDX"])
     cfg["simulation"]["agents"].append("B0")
     cfg["P"] = {"class": "VProbeEvent", "hooks": [["market", True, None, None, None]]}
+    if draw(st.integers(0, 3)) == 0:
+        # the share count of a component changes in mid-run (a user event assigns the public attribute): the weights are the live ones
+        cfg["P"]["reshare"] = {"at": draw(st.integers(0, 6)), "market": draw(st.sampled_from(comps)), "shares": draw(st.sampled_from([1, 9, 777, 10**7]))}
     events = ["P"]
     if draw(st.booleans()):
         cfg["SH"] = {"class": "FundamentalPriceShock", "target": draw(st.sampled_from(comps)), "triggerTime": draw(st.integers(0, 6)),
@@ -126,13 +129,15 @@ def check_case(case):
                 if t in seen_t:
                     continue
                 seen_t.add(t)
-                want = weighted([kw["fund"][j] for j in ci], shares)
+                live = [kw["shares"][j] for j in ci] if kw.get("shares") else shares  # the share counts in force when the clock advanced
+                want = weighted([kw["fund"][j] for j in ci], live)
                 got = kw["fund"][ii]
                 n_fund += 1
                 if not math.isclose(got, want, rel_tol=1e-12):
                     raise Violation("C17.index_fundamental", f"after the clock advanced to {t}: fundamental of {iname} {got!r}, share-weighted average of component "
                                                              f"fundamentals {want!r} (components {cfg[iname]['markets']}, shares {shares})")
         final = idx.get_time()
+        shares = [c.outstanding_shares for c in comps]  # (the live counts: equal to the configured ones unless a reshare happened)
         check_index_history(idx, comps, shares, final, f"end of run, {iname}")
         if idx.get_fundamental_index(0) != idx.get_fundamental_price(0):
             raise Violation("C17.fundamental_index_getter", "")
@@ -147,10 +152,41 @@ def check_case(case):
 
 
 setup_cases = st.fixed_dictionaries({"kind": st.sampled_from(["repeated", "no_shares", "ok"]), "n": st.integers(2, 4),
-                                     "shares": st.lists(st.integers(1, 10**6), min_size=4, max_size=4), "dup": st.integers(0, 3)})
+                                     "shares": st.lists(st.integers(1, 10**6), min_size=4, max_size=4), "dup": st.integers(0, 3),
+                                     "via_runner": st.booleans()})
+
+
+def _setup_via_runner(case):
+    """the same three situations as a configuration handed to the runner (which fills in defaults before the index sees them)"""
+    from pams.logs.base import Logger
+    from pams.runners.sequential import SequentialRunner
+    names = [f"M{i}" for i in range(case["n"])]
+    cfg = {"simulation": {"markets": names + ["IDX"], "agents": ["A"],
+                          "sessions": [{"sessionName": 0, "iterationSteps": 2, "withOrderPlacement": False, "withOrderExecution": False, "withPrint": False}]},
+           "A": {"class": "TestAgent", "numAgents": 1, "markets": [names[0]], "cashAmount": 100, "assetVolume": 1}}
+    for i, nme in enumerate(names):
+        cfg[nme] = {"class": "Market", "tickSize": 1.0, "marketPrice": 100.0 + 50 * i}
+        if not (case["kind"] == "no_shares" and i == case["dup"] % case["n"]):
+            cfg[nme]["outstandingShares"] = case["shares"][i]
+    comps = list(names) + ([names[case["dup"] % case["n"]]] if case["kind"] == "repeated" else [])
+    cfg["IDX"] = {"class": "IndexMarket", "tickSize": 1.0, "marketPrice": 100.0, "markets": comps}
+    r = SequentialRunner(settings=cfg, prng=random.Random(1), logger=Logger())
+    try:
+        r._setup()
+    except (ValueError, AssertionError):
+        if case["kind"] == "ok":
+            raise Violation("C17.setup_refuses_valid", f"{case}")
+        return CaseInfo(nontrivial=True, classes=[case["kind"], "via_runner"], sample=case)
+    if case["kind"] != "ok":
+        idx = r.simulator.name2market["IDX"]
+        raise Violation("C17.setup_accepts_invalid_components", f"the runner set up an index over components {comps} ({case['kind']}); component shares "
+                                                                f"{[c.outstanding_shares for c in idx.get_components()]}")
+    return CaseInfo(nontrivial=True, classes=["ok", "via_runner"], sample=case)
 
 
 def setup_check(case):
+    if case.get("via_runner"):
+        return _setup_via_runner(case)
     sim = Simulator(prng=random.Random(0))
     names = []
     for i in range(case["n"]):
